@@ -1116,6 +1116,34 @@ func genMatchCase(r *rng) (bson.D, bson.D) {
 	return d, g.filter(d, 3)
 }
 
+// family `matchref`: same pairs from the well-formed stream; the model side
+// answers with the REFERENCE semantics on the core domain (Spec/RunRef.v)
+func init() {
+	register(&family{
+		name: "matchref",
+		gen: func(r *rng) string {
+			d := genMatchDoc(r)
+			g := &fgen{r: r, mal: r.chance(1, 30)}
+			return "(matchref " + enc(d) + " " + enc(g.filter(d, 3)) + ")"
+		},
+		run: func(c *sx) string {
+			d := decValue(c.list[1]).(bson.D)
+			f := decValue(c.list[2]).(bson.D)
+			if unmodelledSyn(d, f) {
+				return "UNMODELLED"
+			}
+			return matchObs(d, f)
+		},
+		classify: func(c *sx, obs string) ([]string, bool) {
+			d := decValue(c.list[1]).(bson.D)
+			f := decValue(c.list[2]).(bson.D)
+			labels, nt := classifyMatch(d, f, obs)
+			sort.Strings(labels)
+			return labels, nt
+		},
+	})
+}
+
 func init() {
 	register(&family{
 		name: "match",
